@@ -1640,10 +1640,12 @@ class GroupBy:
                 and not is_dask_collection(slice)
             )
         ):
-            projection = set(by_).union(
-                {slice} if (np.isscalar(slice) or isinstance(slice, str)) else slice
-            )
-            projection = [c for c in obj.columns if c in projection]
+            cols = [slice] if (np.isscalar(slice) or isinstance(slice, str)) else slice
+            # the key columns, then the selection in its own order (mean/var/std
+            # return the columns of the projected frame)
+            cols = [c for c in dict.fromkeys(cols) if c in obj.columns]
+            keys = set(by_).difference(cols)
+            projection = [c for c in obj.columns if c in keys] + cols
 
         self.obj = obj[projection] if projection is not None else obj
         self.sort = sort
